@@ -7,7 +7,8 @@
    allows, standing inside the attack window on a cell that is not masked. *)
 From Coq Require Import ZArith List Bool Arith Lia.
 From Abm Require Import Base.Sx Grid.Overlap Grid.Grid Grid.Move Grid.Attack Grid.Vis Grid.AttackRun
-  Grid.AttackChk Proofs.Grid_proofs Proofs.Move_proofs Proofs.Attack_proofs.
+  Grid.AttackChk Proofs.Grid_proofs Proofs.Move_proofs Proofs.Attack_proofs Proofs.GridChk_proofs
+  Proofs.AttackLim_proofs Proofs.AttackChk_proofs.
 Import ListNotations.
 Open Scope Z_scope.
 
@@ -80,6 +81,150 @@ Theorem C11_state_consistent : forall vis s cf att o act, ginv s ->
 Proof. exact process_attack_inv. Qed.
 Print Assumptions C11_state_consistent.
 
+(* ---- limits ------------------------------------------------------------------------------------ *)
+(* binary: at most n agents per step *)
+Theorem C11_binary_limit : forall vis s cf att p o n st hits o',
+  0 <= n -> det_binary vis s cf att p o n = AOk (st, hits) o' -> Z.of_nat (length hits) <= n.
+Proof. exact det_binary_limit. Qed.
+Print Assumptions C11_binary_limit.
+
+(* encoding-based (the action is a dict: duplicate-free keys, non-negative counts): per encoding at
+   most the requested number, and no agent of an encoding the action does not name *)
+Theorem C11_encoding_limits : forall vis s cf att p o l st hits o',
+  NoDup (map fst l) -> Forall (fun kv => 0 <= snd kv) l ->
+  det_encoding vis s cf att p o l = AOk (st, hits) o' ->
+  (forall e num, In (e, num) l -> Z.of_nat (length (filter (fun v => enc_of s v =? e) hits)) <= num) /\
+  (forall v, In v hits -> In (enc_of s v) (map fst l)).
+Proof. exact det_encoding_limits. Qed.
+Print Assumptions C11_encoding_limits.
+
+(* selective: per window cell d at most the count the action holds at d's scan position (widx) *)
+Theorem C11_selective_limits : forall vis s cf att p o l st hits o',
+  ginv s -> att_pos s att = Some p -> Forall (fun n => 0 <= n) l ->
+  det_selective vis s cf att p o l = AOk (st, hits) o' ->
+  forall d, In d (window (c_range cf)) -> hits_at s att hits d <= aimed_at cf (ASelective l) d.
+Proof. exact det_selective_limits. Qed.
+Print Assumptions C11_selective_limits.
+
+(* ---- no agent is hit twice unless stacked attacks are enabled ------------------------------------ *)
+Theorem C11_binary_nodup : forall vis s cf att p o n st hits o',
+  ginv s -> c_stacked cf = false ->
+  det_binary vis s cf att p o n = AOk (st, hits) o' -> NoDup hits.
+Proof. exact det_binary_nodup. Qed.
+Print Assumptions C11_binary_nodup.
+
+Theorem C11_encoding_nodup : forall vis s cf att p o l st hits o',
+  ginv s -> c_stacked cf = false -> NoDup (map fst l) ->
+  det_encoding vis s cf att p o l = AOk (st, hits) o' -> NoDup hits.
+Proof. exact det_encoding_nodup. Qed.
+Print Assumptions C11_encoding_nodup.
+
+Theorem C11_selective_nodup : forall vis s cf att p o l st hits o',
+  ginv s -> att_pos s att = Some p -> Forall (fun n => 0 <= n) l -> c_stacked cf = false ->
+  det_selective vis s cf att p o l = AOk (st, hits) o' -> NoDup hits.
+Proof. exact det_selective_nodup. Qed.
+Print Assumptions C11_selective_nodup.
+
+(* ---- ammunition ------------------------------------------------------------------------------------ *)
+(* the returned hit list is no longer than the ammunition; afterwards the attacker holds exactly
+   ammo - hits (never negative); nobody else's ammunition changes *)
+Theorem C11_ammunition : forall vis s cf att o act st hits s' o' a,
+  agent s att = Some a ->
+  process_attack vis s cf att o act = POk st hits s' o' ->
+  (forall am, a_ammo a = Some am -> Z.of_nat (length hits) <= am) /\
+  (forall j b, agent s j = Some b ->
+     exists b', agent s' j = Some b' /\
+       a_ammo b' = if Nat.eqb j att
+                   then option_map (fun am => am - Z.of_nat (length hits)) (a_ammo b)
+                   else a_ammo b).
+Proof. exact process_attack_ammo. Qed.
+Print Assumptions C11_ammunition.
+
+(* ---- with full accuracy no eligible target is skipped --------------------------------------------- *)
+(* accuracy 1 and uniform draws in [0,1]: the criteria filter keeps exactly the candidates that are
+   not the attacker, active and allowed by the mapping *)
+Theorem C11_full_accuracy_filter : forall s cf att o cands l o',
+  c_accuracy cf = HD -> Forall (fun u => u <= HD) (o_unif o) ->
+  filter_criteria s cf att o cands = AOk l o' ->
+  l = filter (fun v => negb (Nat.eqb v att) &&
+                       match agent s v with
+                       | Some b => a_active b && memZ (a_enc b) (c_mapping cf)
+                       | None => false end) cands.
+Proof. exact filter_criteria_full. Qed.
+Print Assumptions C11_full_accuracy_filter.
+
+(* hence the number of hits before the ammunition filter is the checker's expected_full: computed
+   from the eligible agents alone (min(requested, available), or requested when stacked) *)
+Theorem C11_binary_full : forall vis s cf att p o n st hits o',
+  ginv s -> att_pos s att = Some p -> c_accuracy cf = HD -> Forall (fun u => u <= HD) (o_unif o) ->
+  0 <= n -> det_binary vis s cf att p o n = AOk (st, hits) o' ->
+  Z.of_nat (length hits) = expected_full vis s cf att (ABinary n).
+Proof. exact det_binary_full. Qed.
+Print Assumptions C11_binary_full.
+
+Theorem C11_encoding_full : forall vis s cf att p o l st hits o',
+  ginv s -> att_pos s att = Some p -> c_accuracy cf = HD -> Forall (fun u => u <= HD) (o_unif o) ->
+  Forall (fun kv => 0 <= snd kv) l ->
+  det_encoding vis s cf att p o l = AOk (st, hits) o' ->
+  Z.of_nat (length hits) = expected_full vis s cf att (AEncoding l).
+Proof. exact det_encoding_full. Qed.
+Print Assumptions C11_encoding_full.
+
+Theorem C11_selective_full : forall vis s cf att p o l st hits o',
+  ginv s -> att_pos s att = Some p -> c_accuracy cf = HD -> Forall (fun u => u <= HD) (o_unif o) ->
+  Forall (fun n => 0 <= n) l ->
+  det_selective vis s cf att p o l = AOk (st, hits) o' ->
+  Z.of_nat (length hits) = expected_full vis s cf att (ASelective l).
+Proof. exact det_selective_full. Qed.
+Print Assumptions C11_selective_full.
+
+(* restricted selective actor at full accuracy: the count is again the checker's expected_full *)
+Theorem C11_restricted_full : forall vis cm s cf att p o l st hits o',
+  ginv s -> att_pos s att = Some p -> 0 <= c_range cf ->
+  Forall (fun k => 0 <= k <= (2 * c_range cf + 1) * (2 * c_range cf + 1)) l ->
+  c_accuracy cf = HD -> Forall (fun u => u <= HD) (o_unif o) ->
+  det_restricted vis cm s cf att p o l = AOk (st, hits) o' ->
+  Z.of_nat (length hits) = expected_full vis s cf att (ARestricted cm l).
+Proof. exact det_restricted_full. Qed.
+Print Assumptions C11_restricted_full.
+
+(* ---- the executable checker accepts the model's own behaviour ----------------------------------- *)
+(* act_wf: the action lies in the actor's action space (binary: n >= 0; encoding: a dict with
+   non-negative counts; selective: non-negative counts; restricted: range >= 0, cell ids in
+   0..W*W).  limits_ok is the checker's limit clause (per step / per encoding / per cell, for the
+   restricted actor per cell and in total). *)
+Theorem C11_limits_all_actors : forall vis s cf att p o act st hits o1,
+  ginv s -> att_pos s att = Some p -> act_wf cf act ->
+  determine vis s cf att p o act = AOk (st, hits) o1 ->
+  limits_ok s cf att act hits = true /\ (c_stacked cf = false -> NoDup hits).
+Proof. exact determine_limits_ok. Qed.
+Print Assumptions C11_limits_all_actors.
+
+(* one attack, any actor, any visibility function, any admissible draws: every clause of the
+   checker (status, eligibility, targeted cell, limits, no double hit, no skipped target at full
+   accuracy, ammunition, health/active/frame, cell consistency) holds of the model's output *)
+Theorem chk_C11_model : forall vis s cf att o act st hits s' o',
+  ginv s -> act_wf cf act -> 0 <= c_strength cf ->
+  (c_accuracy cf = HD -> Forall (fun u => u <= HD) (o_unif o)) ->
+  process_attack vis s cf att o act = POk st hits s' o' ->
+  chk_attack vis s s' cf att act st hits = 0.
+Proof. exact chk_attack_model. Qed.
+Print Assumptions chk_C11_model.
+
+(* every sequence of attacks, through the snapshot codec (aops_ok: each operation is well formed
+   and its recorded draws are admissible), and the wire entry points *)
+Theorem C11_chk_model_seq : forall s0 ops, ginv s0 -> aops_ok s0 ops ->
+  chk_aops s0 s0 ops (run_aops s0 ops) = 0.
+Proof. exact chk_C11_model_seq. Qed.
+Print Assumptions C11_chk_model_seq.
+
+Theorem C11_run_chk_model : forall xin s0 xops ops,
+  dec_grid_input xin = Some (s0, xops) -> all_some (map dec_aop xops) = Some ops ->
+  ginv s0 -> aops_ok s0 ops ->
+  run_chk_C11 (L [xin; run_attacks xin]) = A 1.
+Proof. exact run_chk_C11_model. Qed.
+Print Assumptions C11_run_chk_model.
+
 (* the code before the repair numbered the cells column by column: refuted on a 1x2 grid *)
 Definition f3_state : gstate :=
   init_state 1 2 [] [ {| a_enc := 1; a_pos := Some (0, 0); a_health := HD; a_active := true;
@@ -96,3 +241,30 @@ Theorem C11_colmajor_refuted :
   /\ (exists s' o', process_attack vis_model f3_state f3_cf 0 f3_orc (ARestricted true [6]) = POk true [] s' o').
 Proof. split; eexists; eexists; vm_compute; reflexivity. Qed.
 Print Assumptions C11_colmajor_refuted.
+
+(* ---- non-vacuity of chk_C11_model: two attacks at full accuracy, half strength; the second kills -- *)
+Definition nv_cf : acfg :=
+  {| c_range := 1; c_strength := HD / 2; c_accuracy := HD; c_simul := 1; c_mapping := [2]; c_stacked := false |}.
+Definition nv_ops : list aop :=
+  [ {| op_att := 0; op_cfg := nv_cf; op_act := ABinary 1;
+       op_orc := {| o_unif := [0]; o_choice := [[1%nat]] |} |};
+    {| op_att := 0; op_cfg := nv_cf; op_act := ARestricted false [6; 0];
+       op_orc := {| o_unif := [HD]; o_choice := [[1%nat]] |} |} ].
+
+Example C11_nonvacuous_chk :
+  aops_ok f3_state nv_ops /\ chk_aops f3_state f3_state nv_ops (run_aops f3_state nv_ops) = 0 /\
+  match process_attack vis_model f3_state nv_cf 0 {| o_unif := [0]; o_choice := [[1%nat]] |} (ABinary 1) with
+  | POk st hits s' _ => st = true /\ hits = [1%nat] /\ option_map a_health (agent s' 1) = Some (HD / 2)
+  | _ => False
+  end.
+Proof.
+  split; [|split; vm_compute; auto].
+  cbn [aops_ok nv_ops]. split.
+  - unfold aop_wf. cbn [op_cfg op_act op_orc act_wf nv_cf c_strength c_accuracy o_unif].
+    split; [lia|]. split; [unfold HD; apply Z.div_pos; lia|]. intros _. repeat constructor. unfold HD. lia.
+  - set (r := process_attack _ _ _ _ _ _). vm_compute in r. subst r. cbv beta iota. split.
+    + unfold aop_wf. cbn [op_cfg op_act op_orc act_wf nv_cf c_strength c_accuracy c_range o_unif].
+      split; [split; [lia|repeat constructor; lia]|].
+      split; [unfold HD; apply Z.div_pos; lia|]. intros _. repeat constructor. lia.
+    + set (r := process_attack _ _ _ _ _ _). vm_compute in r. subst r. exact I.
+Qed.
